@@ -271,8 +271,22 @@ def parse_item(toks, i, hi, verus=False):
             i = match_close(toks, i + 1) + 1
             continue
         if toks[i].text == 'exec' and i + 1 < hi and toks[i + 1].text in ('const', 'static'):
-            i += 1
-            break
+            # Verus `exec const X: T ensures ..., { body }`
+            j = i + 2
+            while j < hi:
+                if toks[j].kind == 'punct' and toks[j].text in ('(', '['):
+                    j = match_close(toks, j) + 1
+                    continue
+                if toks[j].text == '{' and toks[j - 1].text == ',':
+                    e = match_close(toks, j)
+                    return Item('const', toks[i + 2].text, None, start, hstart, j, e + 1)
+                if toks[j].text == '{':
+                    j = match_close(toks, j) + 1
+                    continue
+                if toks[j].text == ';':
+                    return Item('const', toks[i + 2].text, None, start, hstart, None, j + 1)
+                j += 1
+            raise ValueError('exec const without end at line %d' % toks[i].line)
         i += 1
         if toks[i - 1].text == 'extern' and i < hi and toks[i].kind == 'str':
             i += 1
@@ -300,7 +314,7 @@ def parse_item(toks, i, hi, verus=False):
             j += 1
         header = texts(toks[i:j])
         if kw == 'impl':
-            name = ' '.join(strip_generics(header))
+            name = ' '.join(strip_generics(header)).replace(' :: ', '::')
         else:
             name = toks[i + 1].text
         if toks[j].text == ';':
@@ -350,7 +364,7 @@ def parse_items(toks, lo, hi, verus=False):
 def _sel_name(sel):
     ts = texts(tokenize(sel)[0])
     if ts[0] == 'impl':
-        return 'impl', ' '.join(strip_generics(ts))
+        return 'impl', ' '.join(strip_generics(ts)).replace(' :: ', '::')
     return ts[0], ts[1]
 
 
